@@ -1,42 +1,44 @@
-(* Code-dependent parameters of the script model that are NOT (yet) produced by the translator:
-   hand-written mirrors of the current source, tied by the exact script correspondence.
-   Each definition names the source lines it mirrors. *)
+(* Code-dependent parameters of the script model, assembled from what the translator extracts from the
+   current source (GTgen.EdGen) on every run. *)
 From Coq Require Import ZArith List Bool Lia.
-Require Import GT.PyBase GT.Data GT.LevModel.
+Require Import GT.PyBase GT.Data GT.LevModel GT.EdTypes GTgen.EdGen.
 Import ListNotations.
 Open Scope Z_scope.
 
-(* levenshtein.py:55-66  `col = row = 0; for col in range(1, cols): for row in range(1, rows): ...;
-   return dist[row][col]`: when t is empty the outer loop never runs and dist[0][0] = 0 is returned;
-   when s is empty row stays 0 and dist[0][len t] = len t is returned (which is correct). *)
+(* levenshtein_distance as it RETURNS: with `return dist[row][col]` the loop variables are still 0 when t is
+   empty (the loops never run), so dist[0][0] = 0 is returned; when s is empty row stays 0 and col ends at
+   len t, so dist[0][len t] = len t is returned, which is the right cell. *)
 Definition lev (s t : str) : Z :=
-  match t with
-  | [] => 0
-  | _ => lev_dp s t
-  end.
+  if lev_returns_loop_var_cell then match t with [] => 0 | _ => lev_dp s t end else lev_dp s t.
 
-(* graphtage.py:340-342  ListNode.edits: FixedLengthSequenceEdit is used when ... *)
-Definition list_dispatch_fixed (ale alsl : bool) (lf lt : Z) : bool :=
-  negb ale || ((lf =? lt) && (negb alsl || (lf =? 1))).
+(* LeafNode.edits: cost of Match(self, node, ...) for two leaves *)
+Definition leaf_match_cost (x y : leaf) : Z :=
+  let d := lev (ltext x) (ltext y) in
+  if leaf_zero_cost_adjusted && (d =? 0) && negb (py_eqb x y) then 1 else d.
 
-(* sequences.py:70-75  surplus slice `children()[-len(longer) - len(shorter):]`: Python slice start *)
+(* Python slice start l[start:] on a list of length len *)
 Definition py_slice_start (start len : Z) : Z :=
   if start <? 0 then Z.max 0 (len + start) else Z.min start len.
-Definition surplus_start (longer shorter : nat) : nat :=
-  Z.to_nat (py_slice_start (- Z.of_nat longer - Z.of_nat shorter) (Z.of_nat longer)).
+(* first removed position of the source / first inserted position of the target (FixedLengthSequenceEdit) *)
+Definition remove_from_pos (lf lt : nat) : nat :=
+  Z.to_nat (py_slice_start (to_remove_start (Z.of_nat lf) (Z.of_nat lt)) (Z.of_nat lf)).
+Definition insert_from_pos (lf lt : nat) : nat :=
+  Z.to_nat (py_slice_start (to_insert_start (Z.of_nat lf) (Z.of_nat lt)) (Z.of_nat lt)).
 
 (* sum of the n largest values (utils.largest) *)
 Fixpoint insert_desc (x : Z) (l : list Z) : list Z :=
   match l with [] => [x] | y :: l' => if y <=? x then x :: l else y :: insert_desc x l' end.
 Definition sum_largest (n : nat) (l : list Z) : Z := zsum (firstn n (fold_right insert_desc [] l)).
 
-(* multiset.py:110-128  MultiSetEdit.bounds: the removal/insertion part of the own cost.
+(* MultiSetEdit.bounds once the matching is known: the removal/insertion part of the own cost.
    all_r / all_i: costs of Remove/Insert for every element of to_remove / to_insert;
-   left_r / left_i: those of the elements left unmatched (what edits() emits). *)
+   left_r / left_i: those of the elements the matching leaves unmatched (what edits() emits). *)
 Definition multiset_leftover_cost (all_r all_i left_r left_i : list Z) : Z :=
-  if Nat.ltb (length all_i) (length all_r) then sum_largest (length all_r - length all_i) all_r
+  if multiset_counts_actual_leftovers then zsum left_r + zsum left_i
+  else if Nat.ltb (length all_i) (length all_r) then sum_largest (length all_r - length all_i) all_r
   else if Nat.ltb (length all_r) (length all_i) then sum_largest (length all_i - length all_r) all_i
   else 0.
 
-(* graphtage.py:603  `unshared_kvps = set()`: removals are emitted in hash order *)
-Definition fixed_dict_removals_in_hash_order : bool := true.
+Definition replace_cost (a b : tree) : Z := replace_cost_gen (size a) (size b).
+Definition remove_cost (x : tree) (penalty : Z) : Z := remove_cost_gen (size x) penalty.
+Definition insert_cost (x : tree) (penalty : Z) : Z := insert_cost_gen (size x) penalty.
